@@ -72,7 +72,7 @@ func (g *gen) hexn(n int) string {
 	g.r.Read(b)
 	return hex.EncodeToString(b)
 }
-func q(s string) string { b, _ := json.Marshal(s); return string(b) }
+func q(s string) string                   { b, _ := json.Marshal(s); return string(b) }
 func (g *gen) pick(opts ...string) string { return opts[g.r.Intn(len(opts))] }
 
 const omit = "\x00omit"
@@ -482,6 +482,11 @@ func run(sc vh.Scenario, dir string, rec *vh.Rec) {
 			if st.A() == "Frame" {
 				rec.Begin(vh.Event{"a": "Frame", "frame": fr})
 				rec.Emit(frameOne(g, fr))
+				continue
+			}
+			if st.A() == "KeepAlive" {
+				rec.Begin(vh.Event{"a": "KeepAlive", "frame": fr})
+				rec.Emit(keepAliveOne(g, fr))
 				continue
 			}
 			rec.Begin(vh.Event{"a": "Decode", "frame": fr})
